@@ -203,4 +203,97 @@ theorem supported_sim {ps : List (List Nat)} (h : Supported ps) : ∀ st : Style
     rw [p1, p2]
     exact ih _ wf
 
+/-! ### Emission side: what ansi_term's prefix shows -/
+
+theorem termFold_append (acc : Rendition × RMode) (a b : List (List Nat)) :
+    termFold acc (a ++ b) = termFold (termFold acc a) b := by
+  simp [termFold, List.foldl_append]
+
+theorem termFold_nil (acc : Rendition × RMode) : termFold acc [] = acc := rfl
+
+theorem attrs_fold (b1 b2 b3 b4 b5 b6 b7 b8 : Bool) (fg bg : Option Color) :
+    termFold ({}, .normal) (emitAttrs ⟨b1, b2, b3, b4, b5, b6, b7, b8, fg, bg⟩ Generated.sgrEmitAttrs) =
+      ({ bold := b1, dim := b2, italic := b3, underline := b4, blink := b5, reverse := b6,
+         hidden := b7, strike := b8 }, .normal) := by
+  cases b1 <;> cases b2 <;> cases b3 <;> cases b4 <;> cases b5 <;> cases b6 <;> cases b7 <;>
+    cases b8 <;> rfl
+
+theorem bg_fold (r : Rendition) (c : Color) (hc : ColorWF c) :
+    termFold (r, .normal)
+        (emitColor Generated.sgrEmitBgNamed Generated.sgrEmitBgFixed Generated.sgrEmitBgRgb c) =
+      ({ r with bg := colorR c }, .normal) := by
+  cases c with
+  | named n =>
+    have hn : n < 8 := hc
+    have : n = 0 ∨ n = 1 ∨ n = 2 ∨ n = 3 ∨ n = 4 ∨ n = 5 ∨ n = 6 ∨ n = 7 := by omega
+    rcases this with h | h | h | h | h | h | h | h <;> subst h <;> rfl
+  | fixed n =>
+    have hn : ¬ n > 255 := by have : n ≤ 255 := hc; omega
+    simp [emitColor, Generated.sgrEmitBgFixed, termFold, applyOne, hn, Rendition.setColor, colorR]
+  | rgb x y z =>
+    obtain ⟨h1, h2, h3⟩ := hc
+    have h1' : ¬ x > 255 := by omega
+    have h2' : ¬ y > 255 := by omega
+    have h3' : ¬ z > 255 := by omega
+    simp [emitColor, Generated.sgrEmitBgRgb, termFold, applyOne, h1', h2', h3', Rendition.setColor, colorR]
+
+theorem fg_fold (r : Rendition) (c : Color) (hc : ColorWF c) :
+    termFold (r, .normal)
+        (emitColor Generated.sgrEmitFgNamed Generated.sgrEmitFgFixed Generated.sgrEmitFgRgb c) =
+      ({ r with fg := colorR c }, .normal) := by
+  cases c with
+  | named n =>
+    have hn : n < 8 := hc
+    have : n = 0 ∨ n = 1 ∨ n = 2 ∨ n = 3 ∨ n = 4 ∨ n = 5 ∨ n = 6 ∨ n = 7 := by omega
+    rcases this with h | h | h | h | h | h | h | h <;> subst h <;> rfl
+  | fixed n =>
+    have hn : ¬ n > 255 := by have : n ≤ 255 := hc; omega
+    simp [emitColor, Generated.sgrEmitFgFixed, termFold, applyOne, hn, Rendition.setColor, colorR]
+  | rgb x y z =>
+    obtain ⟨h1, h2, h3⟩ := hc
+    have h1' : ¬ x > 255 := by omega
+    have h2' : ¬ y > 255 := by omega
+    have h3' : ¬ z > 255 := by omega
+    simp [emitColor, Generated.sgrEmitFgRgb, termFold, applyOne, h1', h2', h3', Rendition.setColor, colorR]
+
+/-- Text painted with `st` by ansi_term is shown with the rendition `styleR st`. -/
+theorem rendition_of_emit (st : Style) (hwf : StyleWF st) : renditionOfStyle st = styleR st := by
+  unfold renditionOfStyle applySgr emitParams
+  by_cases hp : st = {}
+  · subst hp; rfl
+  · simp only [hp, if_false]
+    obtain ⟨b1, b2, b3, b4, b5, b6, b7, b8, fg, bg⟩ := st
+    have hbf : Generated.sgrEmitBgFirst = true := by decide
+    simp only [hbf, if_true]
+    show (termFold _ _).1 = _
+    rw [termFold_append, attrs_fold, termFold_append]
+    cases bg with
+    | none =>
+      cases fg with
+      | none => rfl
+      | some c =>
+        simp only [termFold_nil]
+        rw [fg_fold _ c (hwf.1 c rfl)]; rfl
+    | some d =>
+      simp only []
+      rw [bg_fold _ d (hwf.2 d rfl)]
+      cases fg with
+      | none => rfl
+      | some c =>
+        simp only []
+        rw [fg_fold _ c (hwf.1 c rfl)]; rfl
+
+theorem styleWF_default : StyleWF {} := ⟨fun c e => by simp at e, fun c e => by simp at e⟩
+
+/-- **Round trip**: for a supported parameter sequence, the re-emitted parsed style shows the
+rendition the input parameters denote. -/
+theorem round_trip {ps : List (List Nat)} (h : Supported ps) :
+    renditionOfStyle (sgrToStyle ps) = applySgr {} ps := by
+  obtain ⟨_, e, wf⟩ := supported_sim h {} styleWF_default
+  have e0 : styleR ({} : Style) = ({} : Rendition) := rfl
+  rw [e0] at e
+  have : sgrToStyle ps = (parseFold ({}, .normal) ps).1 := rfl
+  rw [this, rendition_of_emit _ wf, e]
+  rfl
+
 end Ansi
